@@ -44,7 +44,11 @@ LiteralOnly == [lit1    |-> << <<"1">> >>,
                 lit2    |-> << <<"1", "2">> >>,
                 litops  |-> << <<"3", "\"ab\"">> >>,      \* return 1 + 2 ... (declared as any) ; return "a" + "b"
                 litbool |-> << <<"true", "false">> >>,
-                litpair |-> << <<"1", "2">>, <<"nil", "nil">> >>]
+                litpair |-> << <<"1", "2">>, <<"nil", "nil">> >>,
+                litoctal |-> << <<"420", "493">> >>]       \* return 0644 ... return 0755 (legacy octal spellings)
+(* function-local constants: the k-th function of a package returns size * 2 with its own  const size = 8 * k  /  "s<k>" *)
+LocalConst(shape, k) == IF shape = "localconst" THEN << <<ToString(16 * k)>> >>
+                        ELSE << <<"\"s" \o ToString(k) \o "s" \o ToString(k) \o "\"">> >>
 
 VARIABLES s1, s2, s3
 GenInit == s1 \in Shapes /\ s2 \in Shapes /\ s3 \in Shapes /\ stack = <<>> /\ visited = {} /\ asked = {}
